@@ -1864,7 +1864,7 @@ def nls_oracles(ctx, case, cinfo, sys_, ref, got, eps, dt, rr, full):
     ok = True
     env0 = [mp.mpf(v) for v in ref["x"]] + [mp.mpf(v) for v in ref["u"]] + [mp.mpf(ts)]
     ea = [abs(v) for v in ref["x"]] + [abs(v) for v in ref["u"]] + [abs(ts)]
-    km = known_any
+    km = None          # D32 and D38 are fixed in /repo: every failure is reported as a plain failing input
     # (1) Jacobians = partial derivatives (50-digit numerical differentiation of the independent evaluator)
     if full:
         for trees, ja, jb in ((case["fs"], "A", "B"), (case["gs"], "C", "D")):
@@ -1937,14 +1937,12 @@ def nls_oracles(ctx, case, cinfo, sys_, ref, got, eps, dt, rr, full):
 def run_nls(ctx: Ctx, cases, oracle_reads):
     lines = []
     for case in cases:
-        lines.append(nls_line(case, 0, 0))       # documented: the reference point is a snapshot
-        lines.append(nls_line(case, 0, 1))       # _ref_state/_ref_input are the caller's tensors
+        lines.append(nls_line(case, 0, 0))       # the reference point is a snapshot (documented = code since D32/D38)
     reps = ctx.driver.run(lines)
     budget = [oracle_reads]
     for k_, case in enumerate(cases):
-        md = parse_nls_reply(reps[2 * k_], case)
-        ma = parse_nls_reply(reps[2 * k_ + 1], case)
-        check_nls(ctx, case, md, ma, budget)
+        md = parse_nls_reply(reps[k_], case)
+        check_nls(ctx, case, md, None, budget)
         ops = {}
         for t in case["fs"] + case["gs"]:
             tree_ops(t, ops)
